@@ -261,7 +261,7 @@ func (c17) Gen(rng *rand.Rand, tier string, emit func(string)) {
 	// random texts (FASTA / FASTQ pieces, blank lines, CR LF, stray header characters), plain and compressed + damaged
 	nk := 260
 	if tier == "thorough" {
-		nk = 2500
+		nk = 1200
 	}
 	pieces := []string{">", "@", "+", "\n", "\r\n", " ", "\t", "a", "acgt", "ACGTN", "II", "IIII", "!~", "id1", "x y", "\n+\n", "\n>", "\n@", "\x00", "\xff", "\x80"}
 	for i := 0; i < nk; i++ {
@@ -303,7 +303,7 @@ func (c17) Gen(rng *rand.Rand, tier string, emit func(string)) {
 			z := c17Compress(codec, c17FormatData(format, 4))
 			step := 1 + len(z)/10
 			if tier == "thorough" {
-				step = 1 + len(z)/60
+				step = 1 + len(z)/30
 			}
 			for k := 8 + rng.Intn(step); k < len(z); k += step {
 				emit(fmt.Sprintf("file %s:%s nrec=4 cut=%d n=0 err=eof", codec, format, k))
@@ -312,7 +312,7 @@ func (c17) Gen(rng *rand.Rand, tier string, emit func(string)) {
 			emit(fmt.Sprintf("file %s:%s nrec=4 cut=%d n=0 err=eof", codec, format, len(z)))
 			nf := 3
 			if tier == "thorough" {
-				nf = 30
+				nf = 12
 			}
 			for i := 0; i < nf; i++ {
 				emit(fmt.Sprintf("file %s:%s nrec=4 flip=%d n=0 err=eof", codec, format, 64+rng.Intn(len(z)*8-64)))
@@ -325,7 +325,7 @@ func (c17) Gen(rng *rand.Rand, tier string, emit func(string)) {
 		z2 := c17Compress(codec, d[len(d)/2:])
 		nm := 6
 		if tier == "thorough" {
-			nm = 60
+			nm = 25
 		}
 		for i := 0; i < nm; i++ {
 			emit(fmt.Sprintf("file %s nrec=6 m2cut=%d n=0 err=eof", codec, 1+rng.Intn(len(z2)-1)))
@@ -336,7 +336,7 @@ func (c17) Gen(rng *rand.Rand, tier string, emit func(string)) {
 	}
 	// files larger than the 1 MiB peek of the format guesser: the damage is met by the chunk reader
 	for i, codec := range codecs {
-		if tier != "thorough" && i != int(rng.Intn(4)) && codec != "gz" {
+		if i != int(rng.Intn(4)) && codec != "gz" {
 			continue
 		}
 		z := c17Compress(codec, c17FileData(26000))
@@ -376,7 +376,7 @@ func (c17) Gen(rng *rand.Rand, tier string, emit func(string)) {
 	emit(fmt.Sprintf("cmd obiconvert pipe gz:fastq nrec=300 cut=%d", len(c17Compress("gz", c17FormatData("fastq", 300)))-2))
 	n := 520
 	if tier == "thorough" {
-		n = 8000
+		n = 4000
 	}
 	for i := 0; i < n; i++ {
 		data := c17Fasta(rng, rng.Intn(6))
